@@ -1,11 +1,17 @@
 //! Trace file: `@ scenario` separators and `kind in.. | out..` lines (decimal numbers).
 use std::fmt::Write as _;
 use std::collections::BTreeMap;
-pub struct Trace { pub buf: String, pub lines: usize, pub kinds: BTreeMap<u64, u64>, pub scenarios: usize,
+pub struct Trace { pub out: Option<std::fs::File>, pub buf: String, pub lines: usize, pub kinds: BTreeMap<u64, u64>, pub scenarios: usize,
     pub notes: BTreeMap<String, u64> }
 impl Trace {
-    pub fn new() -> Self { Trace { buf: String::new(), lines: 0, kinds: BTreeMap::new(), scenarios: 0, notes: BTreeMap::new() } }
-    pub fn scenario(&mut self, name: &str) { let _ = writeln!(self.buf, "@ {}", name); self.scenarios += 1; }
+    pub fn new() -> Self { Trace { out: None, buf: String::new(), lines: 0, kinds: BTreeMap::new(), scenarios: 0, notes: BTreeMap::new() } }
+    /// start a new scenario; everything written so far is flushed to the file, so that a run that does not
+    /// terminate still leaves the trace of what it did
+    pub fn scenario(&mut self, name: &str) { self.flush(); let _ = writeln!(self.buf, "@ {}", name); self.scenarios += 1; self.flush(); }
+    pub fn flush(&mut self) {
+        use std::io::Write as _;
+        if let Some(f) = self.out.as_mut() { let _ = f.write_all(self.buf.as_bytes()); let _ = f.flush(); self.buf.clear(); }
+    }
     pub fn comment(&mut self, s: &str) { let _ = writeln!(self.buf, "# {}", s); }
     pub fn line(&mut self, kind: u64, ins: &[u128], outs: &[u128]) {
         let _ = write!(self.buf, "{}", kind);
@@ -22,5 +28,6 @@ impl Trace {
         let mut s = String::from("# STATS");
         for (k, v) in &self.notes { let _ = write!(s, " {}={}", k.replace(' ', "_"), v); }
         let _ = writeln!(self.buf, "{}", s);
+        self.flush();
     }
 }
